@@ -68,9 +68,8 @@ def translate(ctx):
     th = _mk_thread()
     src = ('import SdcModel.Discovery\nnamespace Sdc.Generated.Discovery\nopen Sdc.Discovery\n'
            f'def rules : Rules :=\n  ⟨{lean_bytes(RULES["ldap"])},\n   {lean_bytes(RULES["uri"])},\n   {lean_bytes(RULES["uuid"])},\n'
-           f'   {lean_bytes(RULES["strcmp"])}⟩\n'
+           f'   {lean_bytes(RULES["strcmp"])},\n   {"true" if wsdimpl.allow_missing_app_sequence else "false"}⟩\n'
            f'def knownIdsMaxlen : Nat := {th._known_message_ids.maxlen}\n'
-           f'def allowMissingAppSequence : Bool := {"true" if wsdimpl.allow_missing_app_sequence else "false"}\n'
            'end Sdc.Generated.Discovery\n')
     core.write_if_changed(core.GENERATED + '/DiscoveryConsts.lean', src)
 
@@ -477,6 +476,22 @@ def rule_kind(rule):
 
 
 # ---------------------------------------------------------------------------------------------- oracle for sessions
+class DupBook:
+    """independent book-keeping for the duplicate oracle: an id that was acted on is remembered at least until `maxlen`
+    further datagrams have arrived (each datagram pushes at most one id onto the window)"""
+
+    def __init__(self, maxlen):
+        self.maxlen, self.n, self.last_dispatch = maxlen, 0, {}
+
+    def must_skip(self, mid) -> bool:
+        return mid in self.last_dispatch and (self.maxlen is None or self.n - self.last_dispatch[mid] - 1 < self.maxlen)
+
+    def record(self, mid, impl):
+        if impl != 'skip':
+            self.last_dispatch[mid] = self.n
+        self.n += 1
+
+
 class Book:
     """independent book-keeping of a session for the oracle"""
 
@@ -502,6 +517,7 @@ def run_session(ctx, rng, idx, lines, expect, cases):
     expect.append('ok')
     cases.append({'session': idx, 'op': 'reset'})
     mids = []
+    dup = DupBook(node.th._known_message_ids.maxlen)
     answered = merged_or_ignored = False
     n_ops = rng.randint(5, 40)
     for step in range(n_ops):
@@ -538,11 +554,13 @@ def run_session(ctx, rng, idx, lines, expect, cases):
                 ctx.count('generator:message-not-schema-valid:' + type(ex).__name__)
                 continue
             line = (f'dg {mid.replace(" ", "_")} ' if via_dg else '') + msg_line(msg)
-            was_known = mid in node.th._known_message_ids
+            # the id was acted on and fewer than maxlen datagrams arrived since: the node still remembers it
+            was_known = via_dg and dup.must_skip(mid)
             before = node.dump(node.wsd._remote_services)
             impl = node.deliver(data, via_dg)
             if via_dg:
                 mids.append(mid)
+                dup.record(mid, impl)
             op = {'op': 'datagram' if via_dg else 'message', 'mid': mid, 'msg': msg}
             # ---- oracle
             if via_dg and was_known:
@@ -651,7 +669,7 @@ def session_oracle(ctx, node, book, msg, impl, ops, rng):
         answered = bool(got)
         ctx.count('resolve:' + ('answered' if got else 'not-published'))
     elif kind in ('hello', 'pm', 'rm'):
-        if impl.startswith('ok') and msg.get('app'):
+        if impl.startswith('ok') and (msg.get('app') or wsdimpl.allow_missing_app_sequence):
             svcs = [msg['svc']] if kind in ('hello', 'rm') else msg['svcs']
             for s in svcs:
                 if s is not None and s['epr']:
@@ -661,7 +679,7 @@ def session_oracle(ctx, node, book, msg, impl, ops, rng):
                     ctx.count('announcement:' + ('first' if not prev else 'higher' if s['mv'] > max(p['mv'] for p in prev)
                                                  else 'same-version' if s['mv'] == max(p['mv'] for p in prev) else 'outdated'))
                     prev.append(s)
-        elif not msg.get('app'):
+        elif impl.startswith('ok'):
             merged = True
     elif kind == 'bye':
         book.seen.pop(msg['epr'], None)
@@ -694,7 +712,7 @@ def table_oracle(ctx, node, book, ops):
 # ---------------------------------------------------------------------------------------------- run
 def run(ctx):
     rng = ctx.subrng('c14')
-    lines = ['rules ' + ' '.join(hx(RULES[k]) for k in ('ldap', 'uri', 'uuid', 'strcmp')), f'maxlen {_mk_thread()._known_message_ids.maxlen}']
+    lines = ['rules ' + ' '.join(hx(RULES[k]) for k in ('ldap', 'uri', 'uuid', 'strcmp')) + f' {int(bool(wsdimpl.allow_missing_app_sequence))}', f'maxlen {_mk_thread()._known_message_ids.maxlen}']
     expect = ['ok', 'ok']
     cases = [{'op': 'rules'}, {'op': 'maxlen'}]
 
@@ -786,11 +804,13 @@ def window_session(ctx, rng, lines, expect, cases):
     uris = [rand_uri(rng)]
     seq = [f'urn:uuid:w{i}' for i in range(n)]
     seq += [seq[0], seq[1], seq[-1], seq[-maxlen], seq[-maxlen - 1], seq[n // 2]]
+    dup = DupBook(maxlen)
     for j, mid in enumerate(seq):
         msg = {'kind': 'hello', 'app': True, 'inst': 1, 'svc': {**rand_svc(rng, uris, epr='urn:uuid:w'), 'mv': j + 1}}
         data = ImplNode.build(msg, mid)
-        was_known = mid in node.th._known_message_ids
+        was_known = dup.must_skip(mid)
         impl = node.deliver(data, True)
+        dup.record(mid, impl)
         if was_known and impl != 'skip':
             ctx.fail('duplicate-acted-on', f'datagram with remembered message id {mid} was dispatched', {'window': seq[:j + 1]})
         lines.append(f'dg {mid} ' + msg_line(msg))
@@ -838,6 +858,7 @@ def replay_ops(ctx, ops) -> bool:
     """re-run a recorded session on a fresh node and evaluate the oracles again"""
     node = ImplNode()
     book = Book()
+    dup = DupBook(node.th._known_message_ids.maxlen)
     done = []
     rng = ctx.subrng('replay')
     for op in ops:
@@ -858,9 +879,11 @@ def replay_ops(ctx, ops) -> bool:
                 msg['types'] = [tuple(t) for t in msg['types']]
             data = ImplNode.build(msg, op['mid'])
             dg = op['op'] == 'datagram'
-            was_known = op['mid'] in node.th._known_message_ids
+            was_known = dg and dup.must_skip(op['mid'])
             before = node.dump(node.wsd._remote_services)
             impl = node.deliver(data, dg)
+            if dg:
+                dup.record(op['mid'], impl)
             print(op['op'], msg['kind'], op['mid'], '->', impl)
             if dg and was_known:
                 if impl != 'skip' or node.dump(node.wsd._remote_services) != before:
